@@ -106,8 +106,8 @@ def judgeCommon (deliv : List (Nat × Msg)) (next' dropped' lost' : Nat) (wasLat
 structure World where
   c : Cfg := {}
   p : Play := {}
-  cDisc : Bool := false     -- the client connection of the CONFIG world has been closed by a Disconnect
-  pDisc : Bool := false
+  cDisc : Bool := false
+  pDisc : Bool := false     -- the PRE-JOIN history has left `pDisciplined` (order no longer judged)
 
 def cfgLine (c : Cfg) (outs : List Out) (err : Bool := false) : String :=
   (if err then "e " else "") ++ showOuts outs ++ " " ++ showQ c.q ++ " r=" ++ showReady c.ready
@@ -125,9 +125,16 @@ def playVerdict (p p' : Play) (impl : String) : String :=
 def cfgDo (w : World) (acts : List CAct) (impl : String) : World × String × String :=
   let (c', outs) := crun w.c acts
   ({ w with c := c' }, cfgLine c' outs, cfgVerdict w.c c' impl)
+/-- `pDisc` latches once a PRE-JOIN op leaves the discipline `pDisciplined` (a direct write past a non-empty
+    queue, possible only through environment changes the phase code never makes): per-backend order is then
+    not a fact about correct code (`play_order_needs_discipline`), so `reorder` is no longer judged until reset;
+    every other verdict still is. -/
 def playDo (w : World) (ops : List POp) (impl : String) (verdict : Bool := true) : World × String × String :=
   let (p', outs) := prun w.p ops
-  ({ w with p := p' }, playLine p' outs, if verdict then playVerdict w.p p' impl else "-")
+  let undisc := w.pDisc || !pDisciplined w.p ops
+  let v := if verdict then playVerdict w.p p' impl else "-"
+  let v := if undisc && v = "viol:reorder" then "-" else v
+  ({ w with p := p', pDisc := undisc }, playLine p' outs, v)
 
 /-- a PLAY message that the property wants delivered later but the handler discards: a backend is in
     flight while none is connected, or the connected backend is not in the PLAY state yet -/
